@@ -9,6 +9,7 @@ import (
 	"sync/atomic"
 	"time"
 
+	"verifh/fs3"
 	"verifh/walk"
 )
 
@@ -16,7 +17,7 @@ func init() {
 	register(&Check{
 		ID:    "C19",
 		Level: "exploration",
-		Rule: "real goroutines, no scheduler, built with -race: m = 4..12 connections, each with its own tables on 1-3 shared bucket prefixes, each running an independent seeded stream of 25-60 steps (INSERT/UPDATE/DELETE on its own key range and on a few shared keys, transactions with rollback, s3db_refresh, s3db_version, s3db_vacuum with a cutoff older than every stamp, drop/create) under its own write_time range and its own deadline, plus inserts of REAL, TEXT and BLOB keys into a side table that only this connection uses (own prefix, 2-4 entries per node); one connection runs part of its stream under an expired deadline; the store sleeps 0-300 us before every request, outside its mutex, to widen interleavings; the whole workload is repeated 3 times per case; one case in six uses the built-in bucket (no hook on the path). " +
+		Rule: "real goroutines, no scheduler, built with -race: m = 4..12 connections, each with its own tables on 1-3 shared bucket prefixes, each running an independent seeded stream of 25-60 steps (INSERT/UPDATE/DELETE on its own key range and on a few shared keys, transactions with rollback, s3db_refresh, s3db_version, s3db_vacuum with a cutoff older than every stamp, drop/create) under its own write_time range and its own deadline, plus inserts of REAL, TEXT and BLOB keys into a side table that only this connection uses (own prefix, 2-4 entries per node); one connection runs part of its stream under an expired deadline; the store sleeps 0-300 us before every request, outside its mutex, to widen interleavings; the whole workload is repeated 3 times per case; before it, one connection's CREATE is held at its first storage request while another connection must get through create / insert / version / refresh / vacuum / drop; one case in six uses the built-in bucket (no hook on the path). " +
 			"Monitors: every WARNING: DATA RACE block in the race log (deduplicated by outermost frames) is a violation; the worker must neither die nor hang; every decoded stamp of a key owned by connection i must lie in i's write_time range; only the connection with the expired deadline may see deadline errors; per prefix the final merged rows must equal the M-row model of all accepted statements; each connection's view of its own keys must equal its own stream applied sequentially. " +
 			"non-trivial = >=4 connections completed and >=2 shared a prefix; distinct = hash of the arrival order of requests at the store (distinct interleavings are also counted)",
 		Flavours: []string{"race"},
@@ -58,6 +59,7 @@ type c19conn struct {
 func runC19(c *Case) {
 	r := c.R
 	builtin := c.Index%6 == 5
+	c19Stall(c)
 	for rep := 0; rep < 3 && c.Res.Status != "violated"; rep++ {
 		c19Round(c, r.Fork(), builtin, rep)
 	}
@@ -467,4 +469,75 @@ func c19Round(c *Case, r *Rng, builtin bool, rep int) {
 	if rep == 0 && c.Index < 4 {
 		c.Res.Sample = map[string]interface{}{"connections": m, "prefixes": nprefix, "builtin_bucket": builtin, "requests": st.LogLen()}
 	}
+}
+
+// stallGate holds the first request of a client until released.
+type stallGate struct {
+	once    sync.Once
+	arrived chan struct{}
+	release chan struct{}
+}
+
+func (g *stallGate) Wait(_ *fs3.Client, _, _ string) {
+	first := false
+	g.once.Do(func() { first = true })
+	if first {
+		close(g.arrived)
+		<-g.release
+	}
+}
+func (g *stallGate) Done(*fs3.Client, string, string) {}
+
+// c19Stall: while one connection's CREATE VIRTUAL TABLE waits for a store that
+// does not answer, another connection creates, uses and drops a table of its
+// own on another store client. Logical condition plus a generous watchdog: the
+// second connection must finish while the first is still held.
+func c19Stall(c *Case) {
+	st := newStore()
+	defer dropStore(st)
+	g := &stallGate{arrived: make(chan struct{}), release: make(chan struct{})}
+	st.Client("stalled").SetGate(g)
+	sdone := make(chan error, 1)
+	sconn := OpenConn("stalled")
+	defer sconn.Close()
+	go func() {
+		sdone <- sconn.Create(TableSpec{Name: tname(c, "stalled"), Cols: "k PRIMARY KEY, a", Store: st.Name, Client: "stalled", Prefix: "s1"})
+	}()
+	select {
+	case <-g.arrived:
+	case <-time.After(20 * time.Second):
+		close(g.release)
+		<-sdone
+		return // the create never reached the store: nothing to observe
+	}
+	bdone := make(chan string, 1)
+	bconn := OpenConn("free")
+	go func() {
+		t := tname(c, "free")
+		if err := bconn.Create(TableSpec{Name: t, Cols: "k PRIMARY KEY, a", Store: st.Name, Client: "free", Prefix: "s2"}); err != nil {
+			bdone <- "create: " + err.Error()
+			return
+		}
+		for _, q := range []string{"insert into " + t + " values (1,'x')", "select s3db_version('" + t + "')", "select s3db_refresh('" + t + "')", "select * from s3db_vacuum('" + t + "','2001-01-01 00:00:00')", "drop table " + t} {
+			if _, err := bconn.Rows(q); err != nil {
+				bdone <- q + ": " + err.Error()
+				return
+			}
+		}
+		bdone <- ""
+	}()
+	c.Count("stalled_create_scenarios", 1)
+	select {
+	case msg := <-bdone:
+		if msg != "" {
+			c.Violate("C19:stalled-create:other-connection-error", "while another connection's CREATE was waiting for its store: "+msg, nil)
+		}
+		close(g.release)
+	case <-time.After(30 * time.Second):
+		c.Violate("C19:stalled-create:other-connection-blocked", "while one connection's CREATE VIRTUAL TABLE waits for a store that does not answer, another connection (other prefix, other store client) has not finished create / insert / s3db_version / s3db_refresh / s3db_vacuum / drop within 30 s", nil)
+		close(g.release)
+		<-bdone
+	}
+	<-sdone
+	bconn.Close()
 }
